@@ -28,7 +28,7 @@ def parseBeh (s : String) : Option Beh :=
     | _ => none
 
 def optList? (s : String) : Option (Option (List Nat)) :=
-  if s == "none" || s == "" then some none else (natList? s).map some
+  if s == "none" then some none else (natList? s).map some
 
 def natPairs? (s : String) : Option (List (Nat × Nat)) := pairList? ":" s
 
@@ -45,8 +45,8 @@ def showDb (db : DB) : String :=
 
 def parseCfg (a : Args) : Option Cfg := do
   let mf ← (if a.get "maxfail" == "inf" || a.get "maxfail" == "" then some none else (a.get "maxfail").toNat?.map some)
-  let k ← optList? (a.get "selk")
-  let m ← optList? (a.get "selm")
+  let k ← (if a.has "selk" then optList? (a.get "selk") else some none)
+  let m ← (if a.has "selm" then optList? (a.get "selm") else some none)
   pure { force := a.get "force" == "1", dry := a.get "dry" == "1", maxFail := mf, selK := k, selM := m }
 
 def engineHandle (st : EngineSt) (cmd : String) (a : Args) : EngineSt × String :=
